@@ -4,7 +4,7 @@
    length — an exception (division by zero) exactly for the empty sequence; with a pH given, FCR / NCPR are
    charge_at_pH(pH[, mode='TOTAL']) over the length, charge_at_pH being an ORACLE here (tied in titration_tie /
    minipy_pi_tie).  self.countPos() etc. are interpreted by RUNNING their translated bodies; a / b is "qdiv". *)
-From Coq Require Import List String Ascii ZArith QArith Qreduction Bool Arith Lia.
+From Coq Require Import List String Ascii ZArith QArith Qreduction Bool Arith Lia Qabs.
 From LC Require Import Core.Residue Core.Lists Core.MiniPy Spec.Delta Gen.GMiniPy.
 Import ListNotations.
 Local Open Scope Z_scope.
@@ -197,7 +197,37 @@ Proof.
   intros H. unfold lenq. rewrite !Qred_correct. unfold Qeq, Qdiv, Qmult, Qinv, Qplus, inject_Z. cbn.
   destruct N as [|n]; [lia|]. cbn. rewrite Pos.of_nat_succ. destruct c; cbn; lia.
 Qed.
+
+(* mean_net_charge: abs(self.NCPR(pH)); the call of NCPR is interpreted by RUNNING its translated body *)
+Definition abs_prim (args : list value) : value :=
+  match args with [VInt z] => VInt (Z.abs z) | [VQ q] => VQ (Qred (Qabs q)) | _ => VErr end.
+Definition cprim2 (name : string) (args : list value) : value :=
+  if String.eqb name "abs" then abs_prim args
+  else if String.eqb name "NCPR" then
+    match args with [ph] => match MiniPy.exec cprim1 0 g_NCPR (("pH"%string, ph) :: ("self.len"%string, VInt (Z.of_nat N)) :: c_env) with ORet v => v | ORaise => VExc | _ => VErr end | _ => VErr end
+  else VErr.
+Theorem mean_net_charge_tie r : lookup "pH" r = VNone -> (1 <= N)%nat ->
+  MiniPy.exec cprim2 0 g_mean_net_charge r = ORet (VQ (Qred (Qabs (Qred (inject_Z (npos p - nneg p) / lenq))))).
+Proof.
+  intros Hph HN. unfold g_mean_net_charge. apply exec_return_ok; [|reflexivity].
+  rewrite (eval_call1 _ _ _ (VQ (Qred (inject_Z (npos p - nneg p) / lenq)))); [reflexivity | | reflexivity].
+  rewrite (eval_call1 _ _ _ VNone); [| rewrite eval_var; exact Hph | reflexivity].
+  unfold cprim2. cbn [String.eqb Ascii.eqb Bool.eqb]. rewrite NCPR_tie by reflexivity.
+  unfold frac. destruct N; [lia | reflexivity].
+Qed.
+Theorem mean_net_charge_pH_tie (ph c : Q) r : lookup "pH" r = VQ ph -> cap [VQ ph] = VQ c -> (1 <= N)%nat ->
+  exists v, MiniPy.exec cprim1 0 g_NCPR (("pH"%string, VQ ph) :: ("self.len"%string, VInt (Z.of_nat N)) :: c_env) = ORet (VQ v) /\
+            MiniPy.exec cprim2 0 g_mean_net_charge r = ORet (VQ (Qred (Qabs v))).
+Proof.
+  intros Hph Hc HN. pose proof (NCPR_pH_tie ph c (("pH"%string, VQ ph) :: ("self.len"%string, VInt (Z.of_nat N)) :: c_env) eq_refl eq_refl Hc HN) as E.
+  eexists. split; [exact E|]. unfold g_mean_net_charge. apply exec_return_ok; [|reflexivity].
+  erewrite (eval_call1 _ _ _ (VQ _)); [reflexivity | | reflexivity].
+  rewrite (eval_call1 _ _ _ (VQ ph)); [| rewrite eval_var; exact Hph | reflexivity].
+  unfold cprim2. cbn [String.eqb Ascii.eqb Bool.eqb]. rewrite E. reflexivity.
+Qed.
 End Counts.
+Print Assumptions mean_net_charge_tie.
+Print Assumptions mean_net_charge_pH_tie.
 Print Assumptions countNeut_tie.
 Print Assumptions NCPR_tie.
 Print Assumptions FCR_pH_tie.
